@@ -266,3 +266,38 @@ def split_compare(test):
             left = right
         return out
     return [test]
+
+
+def cmp_matches(ctx, func, test, expected_src):
+    """Does `test` (an ast expression) denote the same single comparison as `expected_src` (python source), up to
+    operand order / strictness-preserving rewriting?  Names in expected_src are canonicalised in func's scope."""
+    got = comparison_normal(ctx, func, test)
+    try:
+        want = comparison_normal(ctx, func, ast.parse(expected_src, mode='eval').body)
+    except SyntaxError:
+        return False
+    if got is None or want is None:
+        return False
+    if got[1] != want[1]:
+        return False
+    if got[1] in ('==', '!='):
+        neg = {k: -v for k, v in want[0].items()}
+        return lin_eq(got[0], want[0]) or lin_eq(got[0], neg)
+    return lin_eq(got[0], want[0])
+
+
+_MIRROR = {'<': '>', '>': '<', '<=': '>=', '>=': '<=', '==': '==', '!=': '!='}
+_OPN = {ast.Lt: '<', ast.Gt: '>', ast.LtE: '<=', ast.GtE: '>=', ast.Eq: '==', ast.NotEq: '!='}
+
+
+def var_vs_const(test):
+    """A comparison between one expression and one literal, oriented as `expr OP const` -> (expr text, OP, const)."""
+    if not (isinstance(test, ast.Compare) and len(test.ops) == 1 and type(test.ops[0]) in _OPN):
+        return None
+    l, r = test.left, test.comparators[0]
+    op = _OPN[type(test.ops[0])]
+    if const_value(r) is not None and const_value(l) is None:
+        return norm(l), op, const_value(r)
+    if const_value(l) is not None and const_value(r) is None:
+        return norm(r), _MIRROR[op], const_value(l)
+    return None
